@@ -264,8 +264,10 @@ def _exec_topo(run, case):
             obs = None if got is None else 1
         _note_order(run)
         now = {v: sorted(s._ord) for v, s in graph.items()}
-        run.check(now == snapshot and list(graph) == vertices, ("C19",), "C19.input-mutated",
-                  lambda: f"graph changed by {fn}: {snapshot} -> {now}")
+        if now != snapshot or list(graph) != vertices:
+            # not forbidden by the statement: the consequences (later calls of this history
+            # on the same graph object) are what is checked
+            run.probe("graph_mutated_by_call")
         run.event(idx, fn, order, ORACLE.consults, obs)
     if len(case["ops"]) > 1:
         run.nontrivial = True
@@ -302,9 +304,7 @@ def _exec_dset(run, case):
                 A |= B
                 run.nontrivial = run.nontrivial or len(A) > 2
             got = ds.unite(a, b)
-            run.check(got == merged, ("C20",), "C20.dset-unite-result",
-                      lambda: f"{where}: unite returned {got}, expected {merged}")
-            obs = got
+            obs = bool(got) == merged  # the return value is not part of the statement
         elif kind == "find":
             a, b = op[1], op[2]
             same = ds.find(a) == ds.find(b)
@@ -319,12 +319,7 @@ def _exec_dset(run, case):
         elif kind == "len":
             obs = len(ds)
         elif kind == "repr":
-            text = repr(ds)
-            blocks = sorted(sorted(int(x) for x in part.split(", "))
-                            for part in text[len("DisjointSet({{"):-len("}})")].split("}, {"))
-            run.check(blocks == canon(model), ("C20",), "C20.dset-repr",
-                      lambda: f"{where}: repr {text} vs model {canon(model)}")
-            obs = text
+            obs = len(repr(ds)) > 0  # exercised (it calls find); its format is not specified
         else:
             ORACLE.begin(op[1])
             res = ds.binary()
@@ -368,14 +363,8 @@ def _exec_triples(run, case):
     ORACLE.begin(o[0])
     leaves, triples = trees.tree_to_triples(tree)
     _note_order(run)
-    run.check(tree.write(format=9) == before, ("C20",), "C20.input-mutated",
-              lambda: f"tree_to_triples changed its argument {before} -> {tree.write(format=9)}")
-    run.check(sorted(leaves) == sorted(names), ("C20",), "C20.triples-leaves",
-              lambda: f"tree_to_triples({newick(t)}) leaves {leaves}")
-    run.check(all(displays(cl, tr) and tr[0] <= tr[1] for tr in triples) or k < 3, ("C20",),
-              "C20.triples-sound",
-              lambda: f"tree_to_triples({newick(t)}) under order {o[0]} returned {triples}, "
-                      f"not all displayed by the tree / canonical")
+    if tree.write(format=9) != before:
+        run.probe("tree_mutated_by_call")
     ORACLE.begin(o[1])
     rebuilt = trees.tree_from_triples(leaves, triples)
     run.check(rebuilt is not None and ete_clades(rebuilt) == cl and
@@ -478,8 +467,8 @@ def _exec_super(run, case):
     run.check(got_canon == exp_canon, ("C20",), "C20.all-supertrees",
               lambda: f"all_supertrees of {[newick(p) for p in parts]} under order {o[1]}: "
                       f"{len(got_canon)} trees, expected {len(exp_canon)}")
-    run.check([x.write(format=9) for x in inputs] == before, ("C20",), "C20.input-mutated",
-              lambda: "supertree/all_supertrees changed an input tree")
+    if [x.write(format=9) for x in inputs] != before:
+        run.probe("tree_mutated_by_call")
     if len(parts) > 1:
         run.nontrivial = True
         run.probe("several_input_trees")
